@@ -1,7 +1,7 @@
 //! C04 executor: every element-wise operator form, unary map and reduction of `Vector` / `Matrix`
 //! through the public API of `compute`.  Protocol: see /verif/lean/Compute/Drv/C04.lean.
 use compute::linalg::{dot, inf_norm, logmeanexp, logsumexp, norm, prod, sum};
-use compute::prelude::{Matrix, Vector};
+use compute::prelude::{Dot, Matrix, Vector};
 use compute::statistics::max;
 use cvexec::*;
 
@@ -134,8 +134,171 @@ fn echo(v: &Val, is_ref: usize) -> String {
     }
 }
 
+
+/// Data of a `long` request, built from a compact description (identical in the Lean driver and in the Python oracle):
+/// `ones`: 1.0; `iota`: (i mod 17) - 8; `hash`: (mix(seed, i) mod 13) - 6; `pm1`: +-1 from bit 40 of mix(seed, i).
+fn mix(seed: u64, i: u64) -> u64 {
+    let mut z = seed.wrapping_add(i.wrapping_mul(0x9E3779B97F4A7C15));
+    z = (z ^ (z >> 30)).wrapping_mul(0xBF58476D1CE4E5B9);
+    z = (z ^ (z >> 27)).wrapping_mul(0x94D049BB133111EB);
+    z ^ (z >> 31)
+}
+
+fn gen_data(kind: &str, seed: u64, n: usize) -> R<Vec<f64>> {
+    let mut v = Vec::with_capacity(n);
+    for i in 0..n as u64 {
+        v.push(match kind {
+            "ones" => 1.0,
+            "iota" => (i % 17) as f64 - 8.0,
+            "hash" => (mix(seed, i) % 13) as f64 - 6.0,
+            "pm1" => {
+                if (mix(seed, i) >> 40) & 1 == 1 {
+                    -1.0
+                } else {
+                    1.0
+                }
+            }
+            _ => return Err(BadOp),
+        });
+    }
+    Ok(v)
+}
+
+/// order-sensitive digest of a result vector: sum of bits(x_i) * (2 i + 1) modulo 2^64
+fn digest(xs: &[f64]) -> String {
+    let mut h: u64 = 0;
+    for (i, x) in xs.iter().enumerate() {
+        h = h.wrapping_add(x.to_bits().wrapping_mul(2 * i as u64 + 1));
+    }
+    let first = xs.first().map(|x| show_f(*x)).unwrap_or_else(|| "-".to_string());
+    let last = xs.last().map(|x| show_f(*x)).unwrap_or_else(|| "-".to_string());
+    format!("{} {:016x} {} {}", xs.len(), h, first, last)
+}
+
+fn long_step(t: &mut Toks) -> R<String> {
+    match t.tok()? {
+        "red" => {
+            let name = t.tok()?;
+            let form = t.tok()?;
+            let kind = t.tok()?;
+            let seed = t.u64()?;
+            let n = t.usize()?;
+            t.end()?;
+            let d = gen_data(kind, seed, n)?;
+            let r = match form {
+                "free" => match name {
+                    "sum" => sum(&d),
+                    "prod" => prod(&d),
+                    "norm" => norm(&d),
+                    "max" => max(&d),
+                    "logsumexp" => logsumexp(&d),
+                    "logmeanexp" => logmeanexp(&d),
+                    _ => return Err(BadOp),
+                },
+                "meth" => {
+                    let x = Vector::from(d);
+                    match name {
+                        "sum" => x.sum(),
+                        "prod" => x.prod(),
+                        "norm" => x.norm(),
+                        "max" => x.max(),
+                        "logsumexp" => x.logsumexp(),
+                        "logmeanexp" => x.logmeanexp(),
+                        _ => return Err(BadOp),
+                    }
+                }
+                "mat" => {
+                    let m = Matrix::new(d, 1, n as i32);
+                    match name {
+                        "sum" => m.sum(),
+                        "prod" => m.prod(),
+                        "norm" => m.norm(),
+                        "max" => m.max(),
+                        _ => return Err(BadOp),
+                    }
+                }
+                _ => return Err(BadOp),
+            };
+            Ok(ok(show_f(r)))
+        }
+        "dot" => {
+            let form = t.tok()?;
+            let (k1, s1) = (t.tok()?, t.u64()?);
+            let (k2, s2) = (t.tok()?, t.u64()?);
+            let n = t.usize()?;
+            t.end()?;
+            let a = gen_data(k1, s1, n)?;
+            let b = gen_data(k2, s2, n)?;
+            let r = match form {
+                "free" => dot(&a, &b),
+                "meth" => {
+                    let (x, y) = (Vector::from(a), Vector::from(b));
+                    x.dot(&y)
+                }
+                _ => return Err(BadOp),
+            };
+            Ok(ok(show_f(r)))
+        }
+        "infnorm" => {
+            let form = t.tok()?;
+            let nrows = t.usize()?;
+            let kind = t.tok()?;
+            let seed = t.u64()?;
+            let n = t.usize()?;
+            t.end()?;
+            let d = gen_data(kind, seed, n)?;
+            let r = match form {
+                "free" => inf_norm(&d, nrows),
+                "meth" => Matrix::new(d, nrows as i32, (n / nrows) as i32).inf_norm(),
+                _ => return Err(BadOp),
+            };
+            Ok(ok(show_f(r)))
+        }
+        "ew" => {
+            let op = t.tok()?;
+            let (k1, s1) = (t.tok()?, t.u64()?);
+            let (k2, s2) = (t.tok()?, t.u64()?);
+            let n = t.usize()?;
+            t.end()?;
+            let x = Vector::from(gen_data(k1, s1, n)?);
+            let y = Vector::from(gen_data(k2, s2, n)?);
+            let r: Vector = match op {
+                "vadd" => &x + &y,
+                "vsub" => &x - &y,
+                "vmul" => &x * &y,
+                "svmul" => 3.0 * &x,
+                "svsub" => 100.0 - &x,
+                "vssub" => &x - 2.0,
+                "vsdiv" => &x / 4.0,
+                "asgadd" => {
+                    let mut z = x.clone();
+                    z += &y;
+                    z
+                }
+                "asgsmul" => {
+                    let mut z = x.clone();
+                    z *= 5.0;
+                    z
+                }
+                "abs" => x.abs(),
+                "powi3" => x.powi(3),
+                "powi2" => x.powi(2),
+                "neg" => -x.clone(),
+                "mmadd" => {
+                    let (a, b) = (Matrix::new(x.clone(), 1, n as i32), Matrix::new(y.clone(), 1, n as i32));
+                    (&a + &b).data
+                }
+                _ => return Err(BadOp),
+            };
+            Ok(ok(digest(&r.v)))
+        }
+        _ => Err(BadOp),
+    }
+}
+
 fn step(_: &mut (), t: &mut Toks) -> R<String> {
     match t.tok()? {
+        "long" => long_step(t),
         "bin" => {
             let op = t.tok()?;
             let sr = t.usize()?;
